@@ -120,8 +120,17 @@ impl ObjectStore for CachedObjectStore {
     }
 
     async fn get_opts(&self, location: &Path, options: GetOptions) -> ObjectStoreResult<GetResult> {
-        // For range requests or conditional gets, bypass cache
-        if options.range.is_some() || options.if_match.is_some() || options.if_none_match.is_some()
+        // For range requests, conditional gets (ETag- or date-based), versioned
+        // reads and HEAD-style requests, bypass cache: the cached path knows
+        // nothing about the object's ETag / modification time and would answer
+        // with the full payload regardless of the condition.
+        if options.range.is_some()
+            || options.if_match.is_some()
+            || options.if_none_match.is_some()
+            || options.if_modified_since.is_some()
+            || options.if_unmodified_since.is_some()
+            || options.version.is_some()
+            || options.head
         {
             return self.inner.get_opts(location, options).await;
         }
